@@ -2,6 +2,7 @@ package mon
 
 import (
 	"fmt"
+	"math/rand/v2"
 	"sort"
 	"strconv"
 	"strings"
@@ -451,13 +452,22 @@ func runC10(c *core.Ctx) {
 		}
 		k := NewWalker(w, gen.NameOpts{MaxDepth: 1, N: 3}, wts)
 		k.Hostile = 6
-		k.BranchNames = []string{"main", "a", "ab", "b", "a.b", "a-b", "z", "m", "ma", "main2", "A", "0", "x_y", "v1.0", "zz-top", "Main", ".hotfix", ".a", "_", "a.", "..b", "1", "-x-"[1:], ".", "..", "main.lock", "a.lock", "m_", "MAIN", "mAin", "A.B"}
+		k.BranchNames = []string{"main", "a", "ab", "b", "a.b", "a-b", "z", "m", "ma", "main2", "A", "0", "x_y", "v1.0", "zz-top", "Main", ".hotfix", ".a", "_", "a.", "..b", "1", "-x-"[1:], ".", "..", "main.lock", "a.lock", "m_", "MAIN", "mAin", "A.B", "a.tmp", "main.tmp", "a.new", "a.bak", "tmp-a"}
+		if w.Hist%5 == 2 {
+			// long names, some of them prefixes of each other: HEAD is then longer than 128 / 256 bytes
+			q := strings.Repeat("q", 111)
+			k.BranchNames = append(k.BranchNames, q, q+"r", q+"rs", q+strings.Repeat("s", 40), strings.Repeat("L", 200), strings.Repeat("L", 199)+"x", "n"+strings.Repeat("0123456789", 12))
+			k.BranchNames = append(k.BranchNames[12:], "main", "a")
+		}
 		k.Init()
 		if w.Hist%7 != 0 {
 			k.Do("commit-all")
 		}
 		steps := c.Pick(40, 60)
 		for i := 0; i < steps; i++ {
+			if w.Hist%5 == 3 && (i == 10 || i == 30) && w.State().Repo().HeadCommit() != "" {
+				k.TwinProbe()
+			}
 			k.Step()
 		}
 	})
@@ -721,6 +731,9 @@ func valueClass(v string) string {
 			break
 		}
 	}
+	if len(v) > 4000 {
+		cs = append(cs, "longer-than-4KiB")
+	}
 	if len(cs) == 0 {
 		return "plain"
 	}
@@ -845,6 +858,16 @@ var c20Values = []string{
 var c20Names = []string{"Łukasz", "Пётр", "Àgnes", "dev 😀", "Alice", "Alice B", "A=B", "a=b=c", "[bot]", "#1 dev", "O'Neil", "\"Q\"", "José Núñez", "山田 太郎", "x]y", "Dr. X (PhD)", "a>b"}
 var c20Emails = []string{"a@example.com", "first.last@sub.example.org", "x_y+tag@a-b.co", "u@d.io"}
 
+// c20Long: a printable value of 4..10 KiB with single inner blanks, '=' and non-ASCII in its tail.
+func c20Long(r *rand.Rand) string {
+	n := []int{4070, 4085, 4096, 4200, 8192, 10000}[r.IntN(6)]
+	var b strings.Builder
+	for b.Len() < n {
+		b.WriteString([]string{"abcdefghij", "Zz", "x=y", "é", "w w", "0123456789"}[r.IntN(6)])
+	}
+	return strings.TrimSpace(b.String()) + "=end"
+}
+
 func runC20(c *core.Ctx) {
 	RunIn(c, "", 8, 2048)
 	n := c.Pick(500, 4000)
@@ -868,6 +891,9 @@ func runC20(c *core.Ctx) {
 		for i := 0; i < nw; i++ {
 			sec, key := secs[r.IntN(len(secs))], keys[r.IntN(len(keys))]
 			val := c20Values[r.IntN(len(c20Values))]
+			if r.IntN(30) == 0 {
+				val = c20Long(r) // scale: a line of the file longer than any 4 KiB buffer
+			}
 			global := r.IntN(3) == 0
 			if sec == "user" && (key == "name" || key == "email") {
 				bit := 0
@@ -876,6 +902,9 @@ func runC20(c *core.Ctx) {
 					val = c20Emails[r.IntN(len(c20Emails))]
 				} else {
 					val = c20Names[r.IntN(len(c20Names))]
+					if r.IntN(30) == 0 {
+						val = c20Long(r)
+					}
 				}
 				if global {
 					bit++
